@@ -9,6 +9,7 @@ pub mod data;
 pub mod serial;
 pub mod validation;
 pub mod transpose;
+pub mod transpose_crafted;
 pub mod stamql;
 pub mod webanno;
 pub mod concurrent;
